@@ -67,3 +67,8 @@ M("c09-aexit-conditional-release", "C09", SYNC, "Lock.__aexit__", "        self.
 M("c09-factory-drops-fast-acquire", "C09", SYNC, "Lock.__new__", "return LockAdapter(fast_acquire=fast_acquire)", "return LockAdapter()", ["R09-g"])
 # from seeded change C09/c (round 2)
 M("c09-adapter-release-skips-unmaterialised", "C09", SYNC, "LockAdapter.release", "        self._lock.release()", "        if self._internal_lock is not None:\n            self._internal_lock.release()", ["R09-g"])
+
+# from seeded change C09/d (round 2): the non-suspending summary of checkpoint_if_cancelled breaks
+M("c09-cic-yields-past-shield", "C09", A, "AsyncIOBackend.checkpoint_if_cancelled",
+  "            elif cancel_scope.shield:\n                break\n            else:\n                cancel_scope = cancel_scope._parent_scope",
+  "            elif cancel_scope.shield and cancel_scope is _task_states[task].cancel_scope:\n                break\n            else:\n                cancel_scope = cancel_scope._parent_scope", ["R09-h"])
